@@ -1,4 +1,4 @@
-import BertE.Lemmas.PlanExt
+import BertE.Lemmas.StepAll
 import BertE.Drv.C01
 /-
 C01 — forward-port inclusion of destination branches is an invariant.
@@ -108,6 +108,69 @@ theorem C01_external (s : Sys) (hs : s.WF) (hincl : s.Incl) (ev : Event)
   · simp only [step, Sys.Incl]
     apply hincl.of_same
     intro d; exact RefMap.get_set_ne _ _ (fun h => nomatch h)
+
+/-- the queue invariant makes every queue merge safe, whatever is selected -/
+theorem C01_queue_safe (s : Sys) (hs : s.WF) (hincl : s.Incl) (hq : QueueInv s) (sel : List Nat) : QueueSafe s sel :=
+  planQueues_safe hs hincl hq sel
+
+/-- **C01, one event.** `Inv` = well-formedness of the model state + inclusion + the queue invariant (what the
+    robot's own queueing establishes). Every event — pull-request evaluation at any stage with any merge outcomes,
+    queue evaluation with any downward-closed selection, declined/reset clean-up, rebuild/delete queues,
+    create/delete branch once their checks passed, third-party pushes to non-destination branches — preserves it;
+    in particular inclusion holds after the event. -/
+theorem C01_step (s : Sys) (h : Inv s) (ev : Event) (hadm : Adm s ev) :
+    (step s ev).1.Incl ∧ Inv (step s ev).1 :=
+  ⟨(step_inv h ev hadm).incl, step_inv h ev hadm⟩
+
+/-- **C01, every finite history**, checked after every single event: by induction over the history. -/
+theorem C01_run (s : Sys) (h : Inv s) (evs : List Event) (hadm : AdmAll s evs) :
+    ∀ k, (run s (evs.take k)).Incl := by
+  intro k
+  have htake : ∀ (evs : List Event) (s : Sys), AdmAll s evs → ∀ k, AdmAll s (evs.take k) := by
+    intro evs
+    induction evs with
+    | nil => intro s _ k; simp [AdmAll]
+    | cons ev evs ih =>
+      intro s hadm k
+      cases k with
+      | zero => simp [AdmAll]
+      | succ k => exact ⟨hadm.1, ih _ hadm.2 k⟩
+  exact (run_inv _ h (htake evs s hadm k)).incl
+
+/-- the empty repository satisfies the invariant: histories can start there -/
+theorem C01_inv_empty (uq sq : Bool) : Inv ⟨Graph.empty, [], [], [], [], uq, sq⟩ := by
+  refine ⟨⟨empty_WF, ?_, List.Pairwise.nil, ?_⟩, ?_, QInv.of_empty rfl (fun _ => rfl)⟩
+  · intro r c hc; cases hc
+  · intro M m c hc; cases hc
+  · intro a b _ ca cb hca; cases hca
+
+/-- a remote with a single destination branch satisfies inclusion -/
+theorem inclOn_single (g : Graph) (m : RefMap) (d0 : Dest) (h : ∀ d, d ≠ d0 → m.get (.dest d) = none) :
+    InclOn g m := by
+  intro a b hab ca cb hca hcb
+  have ha : a = d0 := by
+    apply Classical.byContradiction; intro hne; rw [h a hne] at hca; cases hca
+  have hb : b = d0 := by
+    apply Classical.byContradiction; intro hne; rw [h b hne] at hcb; cases hcb
+  subst ha; subst hb
+  rw [Dest.before_irrefl] at hab; cases hab
+
+/-- Non-vacuity of `Adm`: from the empty repository, an admissible history that creates a first commit, a
+    development branch on it and a topic branch. -/
+example : AdmAll ⟨Graph.empty, [], [], [], [], true, false⟩
+    [.extSet "seed" [] false, .createBranch (.dev 4 (some 3)) 0, .extPoint "topic" 0] := by
+  refine ⟨?_, ⟨?_, ?_, ?_⟩, ?_, trivial⟩
+  · intro p hp; cases hp
+  · decide
+  · decide
+  · apply inclOn_single _ _ (.dev 4 (some 3))
+    intro d hne
+    rw [RefMap.get_set_ne _ _ (by intro he; simp only [Ref.dest.injEq] at he; exact hne he)]
+    show RefMap.get [(Ref.other "seed", 0)] (.dest d) = none
+    rw [RefMap.get_cons]
+    simp
+  · show (0 : Nat) < _
+    decide
 
 /-- Non-vacuity: a concrete two-branch repository with a pull request meets the hypotheses (`WF`, `Incl`)
     and the direct merge really moves both branches. -/
